@@ -279,6 +279,15 @@ def replay_pca(cex):
             FT = np.asarray(DaskPCA(n_components=k).fit_transform(da.from_array(X.copy(), chunks=chunks)))
             if FT.shape != (n, k) or not np.allclose(np.abs(FT), np.abs(U[:, :k] * S[:k]), atol=1e-6):
                 bad[tag + " fit_transform"] = True
+    # a stack with exactly 500 voxels per image (the last size for which the exact solver is promised)
+    for (n, f, k) in ((30, 500, 2), (500, 20, 2)):
+        X = rng.normal(size=(n, f)) * np.linspace(2, 0.5, f)
+        Xc = X - X.mean(axis=0)
+        S = np.linalg.svd(Xc, compute_uv=False)
+        p = DaskPCA(n_components=k)
+        p.fit(da.from_array(X.copy(), chunks=(n, f)))
+        if not np.allclose(p.singular_values_, S[:k], rtol=1e-6):
+            bad[f"n={n},f={f},k={k} singular values (exact solver expected)"] = [p.singular_values_.tolist(), S[:k].tolist()]
     # classifier: masked, flattened, row i <-> image i; two separated groups
     shape = (3, 2, 4)
     n = 8
@@ -425,6 +434,40 @@ def sec_pca(rec, N=3, F=2, n=1, patches=None):
                 for c in range(F):
                     rec.query(f"{tag}/fit_transform svd-input[{i},{c}]=x-mean", h, zr(A2[i, c]) == X[i][c].e - mean[c], key="C18/pca/svd-input", **kw)
     rec.extra[tag] = {"svd_calls": len(da.svd_calls)}
+
+
+def sec_solver(rec, patches=None):
+    """which SVD is used: the exact one ('full') for every stack with max(n_images, n_voxels) <= 500, and whenever n_components >= 0.8 min(n_images, n_voxels);
+    the randomized (approximate, outside the claim) one only for larger stacks -- decided for symbolic sizes"""
+    L = _load_pca(patches)
+    P = L["acryo.classification._dask_pca"]
+    rec.encodes("acryo/classification/_dask_pca.py:DaskPCA._get_solver")
+    N, F, k = integer("n_images"), integer("n_voxels"), integer("n_components")
+    hyps = [N.e >= 1, F.e >= 1, k.e >= 1, k.e <= N.e, k.e <= F.e, N.e <= 10 ** 6, F.e <= 10 ** 9]  # bound: below these sizes the float 0.8 decides like 4/5 (up to equality)
+
+    class X:
+        shape = (N, F)
+
+    L["acryo.classification._dask_pca"]._known_shape = lambda shape: True
+
+    def replay(cex):
+        return replay_pca({"__solver__": True})
+
+    for pi, pth in enumerate(explore(lambda: P.DaskPCA(n_components=k)._get_solver(X(), k), assumptions=hyps, max_paths=40)):
+        h = hyps + [pth.condition()]
+        if not pth.ok:
+            rec.query(f"solver/path{pi}/does-not-raise ({type(pth.exc).__name__})", h, z3.BoolVal(False), key="C18/solver/raises", replay=replay, twin=False, names={"n_images", "n_voxels", "n_components"})
+            continue
+        mx = z3.If(N.e >= F.e, N.e, F.e)
+        mn = z3.If(N.e <= F.e, N.e, F.e)
+        small = z3.Or(mx <= 500, 10 * z3.ToReal(k.e) >= 8 * z3.ToReal(mn))
+        if pth.result == "full":
+            rec.query(f"solver/path{pi}/full=>small-or-many-components", h, small, key="C18/solver/exact-for-small-stacks", replay=replay, twin=False, names={"n_images", "n_voxels", "n_components"})
+        elif pth.result == "randomized":
+            # (exactly 80 %: the code compares with the float 0.8, either answer is accepted there)
+            rec.query(f"solver/path{pi}/randomized=>large-stack-and-few-components", h, z3.And(mx > 500, 10 * z3.ToReal(k.e) <= 8 * z3.ToReal(mn)), key="C18/solver/exact-for-small-stacks", replay=replay, twin=False, names={"n_images", "n_voxels", "n_components"})
+        else:
+            rec.fact(f"solver/path{pi}/known-solver", False, key="C18/solver/unknown", detail={"solver": repr(pth.result)}, reproduced=replay({})[0])
 
 
 # ---------------------------------------------------------------------------------------
@@ -811,7 +854,7 @@ def sec_masked_difference(rec, shape=(1, 2, 2), patches=None):
 
 
 def sections(tier):
-    S = [("pca-3x2-1", "checks.c18", "sec_pca", {"N": 3, "F": 2, "n": 1}), ("pca-3x2-2", "checks.c18", "sec_pca", {"N": 3, "F": 2, "n": 2}), ("pca-2x3-1", "checks.c18", "sec_pca", {"N": 2, "F": 3, "n": 1})]
+    S = [("solver", "checks.c18", "sec_solver", {}), ("pca-3x2-1", "checks.c18", "sec_pca", {"N": 3, "F": 2, "n": 1}), ("pca-3x2-2", "checks.c18", "sec_pca", {"N": 3, "F": 2, "n": 2}), ("pca-2x3-1", "checks.c18", "sec_pca", {"N": 2, "F": 3, "n": 1})]
     S += [("classifier-mask", "checks.c18", "sec_classifier", {"N": 4, "with_mask": True}), ("classifier-nomask", "checks.c18", "sec_classifier", {"N": 3, "with_mask": False, "n_components": 1, "n_clusters": 2}),
           ("classify", "checks.c18", "sec_classify", {}), ("masked-difference-(1,2,2)", "checks.c18", "sec_masked_difference", {"shape": (1, 2, 2)})]
     if not quick(tier):
